@@ -253,7 +253,28 @@ Definition inflight_reals (ap : oapp) (kind : N) : list (N * N * N) :=
 Definition inflight_phs (ap : oapp) (kind : N) : list (N * N * N) :=
   flat_map (fun ph => if oa_ph ph && negb (oa_release ph =? 0) then [(ap_id ap, oa_release ph, kind); (ap_id ap, oa_key ph, kind)] else []) (ap_allocs ap).
 
+(* finding C06-cancelled-placeholder-swapped (654): in ONE scheduling cycle a placeholder is cancelled (TIMEOUT
+   announced, because a pending real ask of its task group is larger) and then used for the replacement on another node
+   (PLACEHOLDER_REPLACED announced): tryPlaceholderAllocate remembers the first fitting pair (phFit, reqFit) for its
+   second loop and does not look at the released flag again after a later request of the first loop cancelled phFit *)
+Definition both_announced (a : N) (evs : list oevent) : list N :=
+  flat_map (fun e => match e with
+                     | ERelease k a' ty =>
+                         if (a' =? a) && (ty =? TT_PlaceholderReplaced) &&
+                            existsb (fun e2 => match e2 with ERelease k2 a2 ty2 => (k2 =? k) && (a2 =? a) && (ty2 =? TT_Timeout) | _ => false end) evs
+                         then [k] else []
+                     | _ => [] end) evs.
+
 Definition new_poison (pre : ostate) (st : ostep) : list (N * N * N) :=
+  (match st_op st with
+   | OpSched =>
+       flat_map (fun ap => flat_map (fun k =>
+                   (ap_id ap, k, 654) ::
+                   match find_alloc (ap_allocs (match find_app (st_obs st) (ap_id ap) with Some x => x | None => ap end)) k with
+                   | Some ph => [(ap_id ap, oa_release ph, 654)]
+                   | None => [] end) (both_announced (ap_id ap) (st_events st))) (s_apps pre)
+   | _ => []
+   end) ++
   match st_op st with
   | OpRelease a k ty =>
       match find_app pre a with
@@ -446,6 +467,7 @@ Definition model_known (poison : list (N * N * N)) (pre : ostate) (st : ostep) (
               | Some ph, Some r => negb (res_le (oa_res r) (oa_res ph))
               | _, _ => false end then 653
       else 0
+  | OpSched => match both_announced (ap_id ap0) (st_events st) with [] => 0 | _ => 654 end
   | _ => 0
   end.
 
